@@ -593,7 +593,18 @@ func runC07(c *Ctx) {
 		}
 		runC07E2E(c, func(gen string, in, obs Term, nt bool, tags ...string) { c.Case(gen, in, obs, nt, tags...) })
 	}
+	// the big tuples (round 6) are spread over the run, two after every stream, so that they are
+	// evaluated in different shards
+	many := c07ManyShapes()
+	if os.Getenv("VERIF_ONLY") == "units" {
+		many = nil
+	}
+	manyNext := 0
 	for _, st := range streams {
+		for k := 0; k < 2 && manyNext < len(many); k++ {
+			emit("many-"+many[manyNext].name, many[manyNext].t)
+			manyNext++
+		}
 		// VERIF_ONLY=units: C15 reuses the unit-harmonising streams for its "harmonising the units of
 		// several profiles preserves each profile's physical totals" clause
 		if os.Getenv("VERIF_ONLY") == "units" && st.name != "convertible-units" && st.name != "f4-shape" {
@@ -614,5 +625,8 @@ func runC07(c *Ctx) {
 			}
 			emit(st.name, c07Gen(c.R, k))
 		}
+	}
+	for ; manyNext < len(many); manyNext++ {
+		emit("many-"+many[manyNext].name, many[manyNext].t)
 	}
 }
